@@ -296,7 +296,8 @@ def run(run):
                 "tokens, Model.ExprParse must read the tree back, value = implementation) and token soups of 1-9 tokens over numbers, "
                 "all operators and parentheses (accept/reject and value must agree); (b) string-function calls over alphabet {a,b,c,space} "
                 "length<=8, offsets in [-10,10]; (c) numerals (<=12 integer digits, optional fraction) x every shipped locale "
-                "through formatnum and formatnum|R; non-trivial: (a) AST has >=2 operators, (b) non-empty first argument, "
+                "through formatnum and formatnum|R; (d) pairs of number-like texts (signs, leading zeros, fractions, exponents, malformed) "
+                "through #ifeq; non-trivial: (a) AST has >=2 operators, (b) non-empty first argument, "
                 "(c) >=4 integer digits; distinct by JSON hash")
     run.trusted = [
         "Coq 8.16.1 kernel; vm_compute for evaluating the models and for the ladder comparison",
@@ -439,6 +440,48 @@ def run(run):
                                  list(idx[b]))
     run.extra["traces_validated_against_impl"] = len(coq_cases)
     run.extra["locales"] = len(langs)
+
+    # ---- (d) the comparison of #ifeq / #switch (parserfns.mw_equal) against Model.ParserFns.mw_equal, whose meaning
+    #      c18_ifeq_comparison_is_same_text_or_same_value states (same text, or both numbers of the same value)
+    FIXED = ["", "0", "-0", "+0", "1", "01", "1.0", "1.", ".5", "0.5", "-.5", "+1", "1e0", "1E2", "100", "10e1", "1e-1", "0.10", ".1",
+             "1e", "e1", "1a", ".", "-", "+", "--1", "1.0.0", "0x10", "a", "A", "1 0", "1e+2", "1e1.0", "00", "0.0e5", "-0.0"]
+
+    def numlike():
+        if rng.random() < 0.45:
+            return rng.choice(FIXED)
+        t = rng.choice(["", "", "-", "+"]) + "".join(rng.choice("0012359") for _ in range(rng.randint(0, 3)))
+        if rng.random() < 0.5:
+            t += "." + "".join(rng.choice("0015") for _ in range(rng.randint(0, 3)))
+        if rng.random() < 0.35:
+            t += rng.choice("eE") + rng.choice(["", "", "-", "+"]) + "".join(rng.choice("012") for _ in range(rng.randint(0, 2)))
+        return t
+    pairs = []
+    for _ in range(1200 if quick else 20000):
+        a = numlike()
+        b = numlike() if rng.random() < 0.6 else rng.choice([a, "0" + a, a + "0", a + ".0", a + "e0", "+" + a, a.lstrip("+")])
+        pairs.append((a, b))
+    texts = ["{{#ifeq:%s|%s|Y|N}}" % ab for ab in pairs]
+    chunks = [texts[i:i + 200] for i in range(0, len(texts), 200)]
+    res = lib.run_impl("expand_many", [{"texts": c} for c in chunks], shards=lib.NCPU)
+    outs = [o for r in res for o in (r.get("outs") or [["harness", r.get("outcome")]] * 200)]
+    coq_cases, idx = [], []
+    for i, ((a, b), o) in enumerate(zip(pairs, outs)):
+        run.count(["ifeq-compare", a, b], a != b and a != "" and b != "", "ifeq-compare")
+        if o[0] != "ok" or o[1] not in ("Y", "N"):
+            run.property_failure("ifeq-compare:unexpected-result", "%r -> %r" % (texts[i], o), {"texts": [texts[i]]})
+            continue
+        coq_cases.append("(%s, %s, %s)" % (cstr(a.strip()), cstr(b.strip()), "true" if o[1] == "Y" else "false"))
+        idx.append(i)
+    bad, cerrs = lib.coq_eval_failing("c18q", ["Base.Str", "Model.ParserFns"], "str * str * bool", coq_cases,
+                                      "fun '(a, b, o) => Bool.eqb (mw_equal a b) o")
+    for e in cerrs:
+        run.correspondence_break("model evaluation failed (#ifeq comparison)", None, error=e)
+    for b in bad:
+        i = idx[b]
+        run.property_failure("ifeq-compare:differs-from-same-text-or-same-value",
+                             "%r -> %r; Model.ParserFns.mw_equal (same text, or both numbers of the same value) says otherwise"
+                             % (texts[i], outs[i][1]), {"texts": [texts[i]]})
+    run.extra["ifeq_comparisons_checked_against_the_model"] = len(coq_cases)
 
 
 def replay(data):
